@@ -1,5 +1,6 @@
 import Vita.C12.FlowTable
 import Vita.C12.Lemmas
+import Vita.C12.Damage
 import Vita.C11.Toy
 /-!
   C12 — a failed load leaves the target untouched (property theorems).
@@ -20,6 +21,9 @@ import Vita.C11.Toy
       that reports failure returns the target it was given; `X_ok_iff`: it reports success exactly
       when the C11 parser of the same format succeeds (so the verdicts compared by the
       differential run are the verdicts the theorems speak about).
+  (c) a damaged field is reported: `damaged_integer_field_rejected`, `damaged_float_field_rejected` (the spellings
+      no extraction accepts, whatever follows), `element_failure_fails_sequence`, `failed_parse_reported` and per
+      type `X_damaged_…_reported`: the load reports failure and returns the target it was given.
 -/
 namespace Vita.C12
 open Vita.C11
@@ -397,5 +401,178 @@ example : (Cache.loadIntoT toyIO (Cache.fresh 1) "7\n2\n5 9\n1 \n".toList).ok = 
 example : (IGaT.loadInto ⟨3, [1, 2], ⟨5, 6⟩⟩ ['7', '\n', '2', '\n', '9', '\n']).ok = false := by decide
 example : (IGaT.loadInto ⟨3, [1, 2], ⟨5, 6⟩⟩ ['7', '\n', '2', '\n', '9', '\n', '8', '\n']).target
     = ⟨7, [9, 8], ⟨0, 0⟩⟩ := by decide
+
+
+/-! ### (c) a damaged field is reported
+
+  The other half of the property: a load of a damaged stream *reports* failure.  In the byte-level model of the
+  extractors a numeric field whose text is not a number (`NoDigit` / `NoFloat`: the empty stream, a word, a sign
+  alone, `inf`, `nan`, `.`, `1.5e+`, …) fails the extraction whatever follows, the failure of one element fails the
+  counted sequence it belongs to (`readN_none_of_elem`), and a failing parser makes every `loadInto` report failure
+  with the target it was given.  The tie compares this verdict with the real load's on every damaged stream: the
+  model says fail and the real load returns true = "load succeeded on a stream the format rejects". -/
+
+/-- no integer extraction (any unsigned / signed type) accepts a text without a digit after the optional sign -/
+theorem damaged_integer_field_rejected (s : Str) (h : NoDigit s) :
+    (∀ M, readU M s = none) ∧ ∀ H, readI H s = none :=
+  ⟨fun M => readU_noDigit M s h, fun H => readI_noDigit H s h⟩
+
+/-- `load_float_from_stream` rejects a text the lexer of `operator>>(double&)` accepts no character of, or whose
+    accepted characters `strtod` does not convert -/
+theorem damaged_float_field_rejected (io : FloatIO F) (s : Str) (h : NoFloat io s) : readF io s = none :=
+  readF_noFloat io s h
+
+/-- a failing parser: the load reports failure and returns the target it was given (hash, fitness, matrix,
+    distribution, team, population, summary are `parseThenCommit`) -/
+theorem failed_parse_reported {X α : Type} (parse : P α) (commit : X → α → X) (t : X) (s : Str)
+    (h : parse s = none) :
+    (parseThenCommit parse commit t s).ok = false ∧ (parseThenCommit parse commit t s).target = t :=
+  parseThenCommit_none parse commit t s h
+
+/-- failure of the k-th element of a counted sequence (`for (i = 0; i < n; ++i) if (!load(elem)) return false;`)
+    fails the sequence: there is no way to skip a damaged element -/
+theorem element_failure_fails_sequence {α : Type} (p : P α) (k n : Nat) (s : Str) (as : List α) (r : Str)
+    (h : readN p k s = some (as, r)) (hp : p r = none) (hk : k < n) : readN p n s = none :=
+  readN_none_of_elem p k n s as r h hp hk
+
+/-- a word (first character not white space, not a digit, not a sign, not a dot) is damage for every numeric
+    field, whatever follows it -/
+theorem word_is_damage (c : Char) (t : Str) (hw : isWs c = false) (hd : c.isDigit = false) (h1 : c ≠ '-')
+    (h2 : c ≠ '+') (h3 : c ≠ '.') : NoDigit (c :: t) ∧ ∀ (io : FloatIO F), NoFloat io (c :: t) := by
+  have hs : skipWs (c :: t) = c :: t := by simp [skipWs, hw]
+  constructor
+  · unfold NoDigit
+    rw [hs]
+    have : readSign (c :: t) = (false, c :: t) := by
+      rw [readSign.eq_def]
+      split
+      · rename_i heq; cases heq; exact absurd rfl h1
+      · rename_i heq; cases heq; exact absurd rfl h2
+      · rfl
+    simp [this, hd]
+  · intro io
+    unfold NoFloat
+    rw [hs]
+    exact Or.inl (lexFloat_nil_of_head c t hd h1 h2 h3)
+
+/-- i_ga: if the k-th of the `sz` announced genome values cannot be extracted, `individual<i_ga>::load` reports
+    failure and the target is what it was -/
+theorem iga_damaged_value_reported (t : IGaT) (s s1 s2 r : Str) (age sz k : Nat) (as : List Int)
+    (h1 : readU U32 s = some (age, s1)) (h2 : readU U64 s1 = some (sz, s2))
+    (h3 : readN (readI I32) k s2 = some (as, r)) (hk : k < sz) (h4 : readI I32 r = none) :
+    (IGaT.loadInto t s).ok = false ∧ (IGaT.loadInto t s).target = t := by
+  have hp : (do let sz ← readU U64; readN (readI I32) sz : P (List Int)) s1 = none := by
+    simp [P.bind_apply, h2, readN_none_of_elem _ k sz s2 as r h3 h4 hk]
+  have := parseThenCommit_none (do let sz ← readU U64; readN (readI I32) sz : P (List Int))
+    (fun (t : IGaT) v => { t with genome := v }) t s1 hp
+  unfold IGaT.loadInto IGaT.loadImplInto
+  simp only [h1]
+  simp [this.1, this.2]
+
+/-- i_de (seeded change C12-m5): if the k-th of the `sz` announced genome values cannot be extracted — a word, a sign
+    alone, `inf`, the end of the stream … (`NoFloat`) — `individual<i_de>::load` reports failure and the target is what
+    it was: no later token, however well-formed, makes the load succeed -/
+theorem ide_damaged_value_reported (io : FloatIO F) (t : IDeT F) (s s1 s2 r : Str) (age sz k : Nat) (as : List F)
+    (h1 : readU U32 s = some (age, s1)) (h2 : readU U64 s1 = some (sz, s2))
+    (h3 : readN (readF io) k s2 = some (as, r)) (hk : k < sz) (h4 : readF io r = none) :
+    (IDeT.loadInto io t s).ok = false ∧ (IDeT.loadInto io t s).target = t := by
+  have hp : (do let sz ← readU U64; readN (readF io) sz : P (List F)) s1 = none := by
+    simp [P.bind_apply, h2, readN_none_of_elem _ k sz s2 as r h3 h4 hk]
+  have := parseThenCommit_none (do let sz ← readU U64; readN (readF io) sz : P (List F))
+    (fun (t : IDeT F) v => { t with genome := v }) t s1 hp
+  unfold IDeT.loadInto IDeT.loadImplInto
+  simp only [h1]
+  simp [this.1, this.2]
+
+/-- matrix: a damaged element (any of the `cols * rows`) is reported -/
+theorem matrix_damaged_element_reported (k : ElemKind) (t : Matrix) (s s1 s2 r : Str) (cs rs j : Nat) (es : List Int)
+    (h1 : readU U64 s = some (cs, s1)) (h2 : readU U64 s1 = some (rs, s2))
+    (h3 : readN (elemP k) j s2 = some (es, r)) (hj : j < cs * rs) (h4 : elemP k r = none) :
+    (Matrix.loadInto k t s).ok = false ∧ (Matrix.loadInto k t s).target = t := by
+  apply parseThenCommit_none
+  simp [Matrix.load, P.bind_apply, h1, h2, readN_none_of_elem _ j (cs * rs) s2 es r h3 h4 hj]
+
+/-- an opcode that is not in the symbol set is refused -/
+theorem gene_unknown_opcode_rejected (io : FloatIO F) (tab : SymTab) (s s1 : Str) (op : Nat)
+    (h1 : readU U32 s = some (op, s1)) (h2 : tab op = none) : Gene.load io tab s = none := by
+  simp [Gene.load, P.bind_apply, h1, h2, P.fail]
+
+/-- i_mep: a gene that cannot be read (damaged opcode / parameter / argument, unknown opcode) is reported -/
+theorem imep_damaged_gene_reported (io : FloatIO F) (tab : SymTab) (t : IMepT F) (s s1 s2 s3 r : Str)
+    (age rows cols k : Nat) (gs : List (Gene F))
+    (h1 : readU U32 s = some (age, s1)) (h2 : readU U32 s1 = some (rows, s2)) (h3 : readU U32 s2 = some (cols, s3))
+    (h4 : readN (Gene.load io tab) k s3 = some (gs, r)) (hk : k < rows * cols) (h5 : Gene.load io tab r = none) :
+    (IMepT.loadInto io tab t s).ok = false ∧ (IMepT.loadInto io tab t s).target = t := by
+  have hp : IMep.parseImpl io tab s1 = none := by
+    simp [IMep.parseImpl, P.bind_apply, h2, h3, readN_none_of_elem _ k (rows * cols) s3 gs r h4 h5 hk]
+  have := parseThenCommit_none (IMep.parseImpl io tab)
+    (fun (t : IMepT F) v => { t with cols := v.1, genes := v.2.1, best := v.2.2 }) t s1 hp
+  unfold IMepT.loadInto IMepT.loadImplInto
+  simp only [h1]
+  simp [this.1, this.2]
+
+/-- team: a member that cannot be loaded (any of the `n` announced) is reported, the team is what it was (seeded
+    change C12-m6 tears the members loaded before it) -/
+theorem team_damaged_member_reported (io : FloatIO F) (tab : SymTab) (t : TeamT F) (s s1 r : Str) (n k : Nat)
+    (ms : List (IMep F)) (h1 : readU U32 s = some (n, s1))
+    (h2 : readN (IMep.load io tab) k s1 = some (ms, r)) (hk : k < n) (h3 : IMep.load io tab r = none) :
+    (TeamT.loadInto io tab t s).ok = false ∧ (TeamT.loadInto io tab t s).target = t := by
+  apply parseThenCommit_none
+  have : n ≠ 0 := by omega
+  simp [Team.load, P.bind_apply, h1, this, readN_none_of_elem _ k n s1 ms r h2 h3 hk]
+
+/-- population: a layer that cannot be loaded is reported -/
+theorem pop_damaged_layer_reported (io : FloatIO F) (tab : SymTab) (t : List (Layer F)) (s s1 r : Str) (n k : Nat)
+    (ls : List (Layer F)) (h1 : readU U32 s = some (n, s1))
+    (h2 : readN (Layer.load io tab) k s1 = some (ls, r)) (hk : k < n) (h3 : Layer.load io tab r = none) :
+    (Pop.loadInto io tab t s).ok = false ∧ (Pop.loadInto io tab t s).target = t := by
+  apply parseThenCommit_none
+  have : n ≠ 0 := by omega
+  simp [Pop.load, P.bind_apply, h1, this, readN_none_of_elem _ k n s1 ls r h2 h3 hk]
+
+/-- … and a layer cannot be loaded when one of its individuals cannot -/
+theorem layer_damaged_individual_rejected (io : FloatIO F) (tab : SymTab) (s s1 s2 r : Str) (al n k : Nat)
+    (xs : List (IMep F)) (h1 : readU U32 s = some (al, s1)) (h2 : readU U32 s1 = some (n, s2))
+    (h3 : readN (IMep.load io tab) k s2 = some (xs, r)) (hk : k < n) (h4 : IMep.load io tab r = none) :
+    Layer.load io tab s = none := by
+  simp only [Layer.load, P.bind_apply, h1, h2]
+  split
+  · rfl
+  · simp [P.bind_apply, readN_none_of_elem _ k n s2 xs r h3 h4 hk]
+
+
+/-! non-vacuity of (c): the spellings of the damage model are `NoDigit` / `NoFloat`; numbers are not -/
+example : NoDigit "x".toList ∧ NoDigit "".toList ∧ NoDigit " -".toList ∧ NoDigit "--5".toList ∧ NoDigit ".5".toList ∧
+    NoDigit "nan".toList ∧ NoDigit "inf".toList ∧ NoDigit "#".toList ∧ ¬ NoDigit "12x".toList ∧ ¬ NoDigit " +5".toList := by
+  decide
+example : NoFloat toyIO "x".toList ∧ NoFloat toyIO "".toList ∧ NoFloat toyIO " inf".toList ∧ NoFloat toyIO "-".toList ∧
+    NoFloat toyIO "1e+".toList ∧ NoFloat toyIO ".".toList ∧ ¬ NoFloat toyIO " 1 ".toList := by decide
+example : NoDigit ('x' :: "12 7".toList) ∧ NoFloat toyIO ('x' :: "12 7".toList) :=
+  ⟨(word_is_damage (F := Bool) 'x' _ (by decide) (by decide) (by decide) (by decide) (by decide)).1,
+   (word_is_damage 'x' _ (by decide) (by decide) (by decide) (by decide) (by decide)).2 toyIO⟩
+/-- the hypotheses of `ide_damaged_value_reported` on the stream `7 2 1 x`: age 7, two values announced, the first
+    is read, the second is the word `x` -/
+example : readU U32 "7\n2\n1 x\n".toList = some (7, "\n2\n1 x\n".toList) ∧
+    readU U64 "\n2\n1 x\n".toList = some (2, "\n1 x\n".toList) ∧
+    readN (readF toyIO) 1 "\n1 x\n".toList = some ([true], " x\n".toList) ∧ 1 < 2 ∧
+    readF toyIO " x\n".toList = none := by decide
+/-- … and the model of the real load on the streams of the seeded change C12-m5 (`0 1 -`, `7 2 1 x`, `7 2 x 1`) -/
+example : (IDeT.loadInto toyIO ⟨3, [true], ⟨5, 6⟩⟩ "0\n1\n-".toList).ok = false ∧
+    (IDeT.loadInto toyIO ⟨3, [true], ⟨5, 6⟩⟩ "7\n2\n1 x\n".toList).ok = false ∧
+    (IDeT.loadInto toyIO ⟨3, [true], ⟨5, 6⟩⟩ "7\n2\nx 1\n".toList).ok = false ∧
+    (IDeT.loadInto toyIO ⟨3, [true], ⟨5, 6⟩⟩ "7\n2\n1 0\n".toList).ok = true := by decide +kernel
+/-- iga / matrix: a damaged second value -/
+example : readU U32 "7 2 5 -".toList = some (7, " 2 5 -".toList) ∧ readU U64 " 2 5 -".toList = some (2, " 5 -".toList) ∧
+    readN (readI I32) 1 " 5 -".toList = some ([5], " -".toList) ∧ readI I32 " -".toList = none := by decide
+example : readU U64 "1 2 5 0x1".toList = some (1, " 2 5 0x1".toList) ∧ readU U64 " 2 5 0x1".toList = some (2, " 5 0x1".toList) ∧
+    readN (elemP .u32) 2 " 5 0x1".toList = some ([5, 0], "x1".toList) ∧
+    (Matrix.loadInto .u32 ⟨1, [9]⟩ "1 2 5 0x1".toList).ok = true ∧      -- `0x1`: the value 0, `x1` is left unread
+    (Matrix.loadInto .u32 ⟨1, [9]⟩ "1 2 5 x1".toList).ok = false := by decide +kernel
+/-- imep / team: an unknown opcode (2 is not in the toy table) in the second gene of the second member -/
+example : Gene.load toyIO toyTab " 2 1 1".toList = none ∧
+    readU U32 "2 3 1 1 0 1 0 0 3 1 1 2 1 1 0 0".toList = some (2, " 3 1 1 0 1 0 0 3 1 1 2 1 1 0 0".toList) ∧
+    (readN (IMep.load toyIO toyTab) 1 " 3 1 1 0 1 0 0 3 1 1 2 1 1 0 0".toList).isSome = true ∧
+    (TeamT.loadInto toyIO toyTab ⟨[toyInd], ⟨1, 2⟩⟩ "2 3 1 1 0 1 0 0 3 1 1 2 1 1 0 0".toList).ok = false ∧
+    (TeamT.loadInto toyIO toyTab ⟨[toyInd], ⟨1, 2⟩⟩ "2 3 1 1 0 1 0 0 3 1 1 0 1 0 0".toList).ok = true := by decide +kernel
 
 end Vita.C12
